@@ -721,7 +721,7 @@ class Merger:
                 "Merger::_insert_list:  Merging a list into a set.")
             mset = CommentedSet()
             for ele in rhs:
-                if isinstance(ele, (dict, list, set)):
+                if isinstance(ele, (dict, list, set, CommentedSet)):
                     raise MergeException(
                         "Impossible to add Hash, Array, or Set elements to a"
                         " Set destination.", insert_at)
